@@ -427,10 +427,16 @@ func flagValue(r *rand.Rand, letter string, env *ruleEnv) (string, string) {
 			return p[0] + op + p[1], "plain"
 		}
 	case "S":
+		if r.Intn(6) == 0 { // empty list elements are elements too
+			return []string{"", "open,", ",open", "1,,2", ","}[r.Intn(5)], "empty-element"
+		}
 		return []string{"open", "all", "1,2,3", "open,close,read", "2047", "execve"}[r.Intn(6)], "plain"
 	case "k":
 		if r.Intn(5) == 0 {
 			return "my key", "value-with-space"
+		}
+		if r.Intn(6) == 0 {
+			return []string{"", "a,,b", "k,", ",k", ",,"}[r.Intn(5)], "empty-element"
 		}
 		return []string{"key1", "a,b", "k-" + strconv.Itoa(r.Intn(1000))}[r.Intn(3)], "plain"
 	case "w":
@@ -439,7 +445,7 @@ func flagValue(r *rand.Rand, letter string, env *ruleEnv) (string, string) {
 		}
 		return []string{"/etc/passwd", "/tmp", "/var/log/x.log"}[r.Intn(3)], "plain"
 	case "p":
-		return []string{"r", "w", "x", "a", "rw", "wa", "rwxa", "ar"}[r.Intn(8)], "plain"
+		return []string{"r", "w", "x", "a", "rw", "wa", "rwxa", "ar", "rwa", ""}[r.Intn(10)], "plain"
 	}
 	return "", "plain"
 }
